@@ -129,8 +129,23 @@ def run(ck):
                    "a := [1, 2, 3]\nr := a[1:]\ns := a[:2]\nt := a[:]\n", "f := func(a, ...b) { return b }\nr := f(1, [2]...)\n",
                    "r := 0\nfor i := 0; i < 3; i++ { if i == 1 { continue } else if i == 2 { break }; r += i > 0 ? 2 : 3 }\n",
                    "m := {a: 1}\nfor k, v in m { m[k] = v + 1 }\nr := immutable([error(1)])\n"]
+    # every shape of a for header (each clause present or absent) and of an if header
+    for hdr, body in (("for", "if i > 2 { break }; i++"), ("for i < 3", "i++"), ("for i = 1; i < 3; i++", "r += i"), ("for ; i < 3; i++", "r += i"), ("for ; ; i++", "if i > 2 { break }"),
+                      ("for i = 1; i < 3;", "i++"), ("for i = 1; ; i++", "if i > 2 { break }"), ("for i = 1; ;", "if i > 2 { break }; i++"), ("for ; i < 3;", "i++"),
+                      ("for j := 0; j < 2; j++", "r += j"), ("for j := 0; ; j += 2", "if j > 3 { break }"), ("for k, v in [1, 2]", "r += k + v"), ("for v in [1, 2]", "r += v"),
+                      ("if i == 0", "r = 1"), ("if q := 2; q > i", "r = q"), ("if q := 2; q > i { r = q } else if i > 5 { r = 5 } else", "r = 7")):
+        unary_srcs.append("i := 0\nr := 0\n%s {\n  %s\n}\n" % (hdr, body))
+        unary_srcs.append("f := func(i, r) {\n  %s { %s }\n  return r\n}\nx := f(0, 0)\n" % (hdr, body))
     for src in unary_srcs:
         cases.append({"id": len(cases), "kind": "roundtrip", "s": src})
+    # bracketed lists laid out over several lines: the closing bracket on a line of its own after the last element (with a comment
+    # behind the last element, with an empty or comment line in between), as the tutorial writes map literals
+    for opn, cls, els in (("f(", ")", ("1", "2")), ("[", "]", ("1", "2")), ("{", "}", ("a: 1", "b: 2")), ("f(", ")", ("x",)), ("[", "]", ("[1]",)), ("{", "}", ("a: {}",)),
+                          ("f(", ")", ("func() {}", "g(\n    1\n  )")), ("immutable([", "])", ("1", "2")), ("f(", ")", ("xs...",))):
+        for last in ("\n", " // c\n", " /* c */\n", "\n\n", "\n  // c\n"):      # (a trailing comma is not part of this grammar)
+            body = ",\n  ".join(els)
+            for tmpl in ("f := func(...a) { return a }\ng := f\nxs := [1]\nx := 1\nr := %s\n", "f := func(...a) { return a }\ng := f\nxs := [1]\nx := 1\nh := func() {\n  return %s\n}\n"):
+                cases.append({"id": len(cases), "kind": "parses", "s": tmpl % (opn + "\n  " + body + last + cls)})
     res = vlib.run_cases(ck, "syntax", cases, nproc=12)
     # numbers outside the TLC alphabet: Go is the oracle for classification as well
     extra_res = vlib.run_cases(ck, "syntax", [{"id": i, "kind": "num", "s": s} for i, s in enumerate(extra_nums)], nproc=2)
